@@ -32,6 +32,8 @@ RULE = ("exhaustive: all boolean trees up to the tier's node bound over 3 atoms 
         "(three quote kinds, escapes, comments, invalid UTF-8, U+E000, unterminated quotes with escaped quote characters) "
         "through the real lexer and ParseSeqQL under full/nil/empty mapping vs the byte-level model (token texts, flags, "
         "result shape); generated token lists rendered in every quote style and lexed back (spec: the generator's tokens); "
+        "f:in(e1..en) on text/path/keyword fields with multi-word members in every position vs the written-out OR of the "
+        "members as stand-alone filters (truth table over the numbered literals of both real ASTs); "
         "raw-string fuzz of all three entry points over every mapping type. non-trivial = expression has "
         "a NOT and a binary operator / token list parses / tree has NOT and OR / raw string has >= 3 tokens and a quoted "
         "token, a comment or parses / round trip of >= 2 atoms; distinct by input")
